@@ -7,19 +7,58 @@
                         | is_zero a | is_one a
     unsigned only     : set_bit a idx v | power_of_two k | checked_next_power_of_two a
                         | wrapping_next_power_of_two a | next_power_of_two dbg|rel a
+  Whole-index-range requests (one request = every index `0 ≤ i < BITS` of one value; the harness
+  inspects the result of every single call through `digits()` with primitive digit arithmetic only):
+    both signednesses : bit_scan a            -- the pattern reassembled from `bit(0) … bit(BITS-1)`
+    unsigned only     : set_bit_scan a v      -- indices `i` where `set_bit(i, v)` did anything but
+                                                 replace bit `i` (`-` = none, else `bad:i,j,…`, 8 at most)
+                        power_of_two_scan     -- indices `k` where `power_of_two(k)` is not the digit
+                                                 array of `2^k` (same answer format)
   Answers: hex pattern, decimal count, `true`/`false`, `S(x)`/`N`, `P`.
   Spec answers are computed from the pattern value `U` (and `S` for the signed `is_power_of_two`)
-  with `Bnum.Spec.Bits` only.  `bit` / `set_bit` with `idx ≥ BITS`: the property leaves the result
-  open (`*`); `power_of_two k` with `k ≥ BITS` is a documented panic (`P`).
+  with `Bnum.Spec.Bits` only.  `bit` / `set_bit` with `idx ≥ BITS`: the property statement is
+  restricted to `i < BITS` ("bit(i) reads and set_bit(i, v) writes exactly bit i … for i < BITS") and
+  the crate's documentation does not promise a panic either, so the result stays open (`*`);
+  `power_of_two k` with `k ≥ BITS` is a documented panic (`P`).
 -/
 import Bnum.Drive.Util
 import Bnum.Model.BitOps
+import Bnum.Model.C06Extra
 import Bnum.Spec.Bits
 namespace Bnum.Drive.C06
 open Bnum Bnum.Drive
 
 private def W (c : Cfg) : Nat := c.w * c.n
 private def num (n : Nat) : String := toString n
+
+/-- answer format of the `*_scan` requests: `-` when no index failed, else `bad:` + the first 8 -/
+private def showBad (bad : List Nat) : String :=
+  if bad.isEmpty then "-" else "bad:" ++ ",".intercalate ((bad.take 8).map toString)
+
+/-- digit `d` with bit `t` replaced by `v` — what the harness expects of `set_bit`, computed on one
+    primitive digit (`if v { d | 1 << t } else { d & !(1 << t) }`, here in plain arithmetic) -/
+private def digitWithBit (d t : Nat) (v : Bool) : Nat := d - (d / 2 ^ t % 2) * 2 ^ t + v.toNat * 2 ^ t
+
+/-- `bit_scan`: Σ bit(i)·2^i over all `i < BITS`; `none` = some call panicked -/
+private def bitScan (bitf : Nat → Outcome Bool) (W : Nat) : Option Nat :=
+  (List.range W).foldl (fun acc i => do
+    let s ← acc
+    match bitf i with
+    | .ok b => some (if b then s + 2 ^ i else s)
+    | .panic => none) (some 0)
+
+/-- indices `i < BITS` whose `.ok` result differs from `expect i`; `none` = some call panicked -/
+private def scanBad (f : Nat → Outcome (List Nat)) (expect : Nat → List Nat) (W : Nat) :
+    Option (List Nat) :=
+  (List.range W).foldl (fun acc i => do
+    let bad ← acc
+    match f i with
+    | .ok r => some (if r == expect i then bad else bad ++ [i])
+    | .panic => none) (some [])
+
+private def showScan : Option (List Nat) → String
+  | some bad => showBad bad
+  | none => "P"
 
 def handle : Handler := fun c op args =>
   let w := c.w
@@ -75,8 +114,25 @@ def handle : Handler := fun c op args =>
   | "reverse_bits", [a] =>
     un (fun a => showVal c (if c.signed then II.reverseBits w a else UI.reverseBits w a))
        (fun v => toHex (Spec.reverseBits (W c) v)) a
-  | "is_zero", [a] => un (fun a => showBool (isZero a)) (fun v => showBool (v = 0)) a
-  | "is_one", [a] => un (fun a => showBool (isOne a)) (fun v => showBool (v = 1)) a
+  | "is_zero", [a] =>
+    un (fun a => showBool (if c.signed then II.isZeroBits a else isZero a)) (fun v => showBool (v = 0)) a
+  | "is_one", [a] =>
+    un (fun a => showBool (if c.signed then II.isOneBits a else isOne a)) (fun v => showBool (v = 1)) a
+  | "bit_scan", [a] => do
+    let a ← parseVal c a
+    some (match bitScan (fun i => if c.signed then II.bit w a i else UI.bit w a i) (W c) with
+          | some v => toHex v
+          | none => "P",
+      toHex (U w a))
+  | "set_bit_scan", [a, v] =>
+    if c.signed then none else do
+    let a ← parseVal c a; let v ← parseBool v
+    some (showScan (scanBad (fun i => UI.setBit w a i v)
+        (fun i => a.set (i / w) (digitWithBit (a.getD (i / w) 0) (i % w) v)) (W c)), "-")
+  | "power_of_two_scan", [] =>
+    if c.signed then none else
+    some (showScan (scanBad (fun k => UI.powerOfTwo w c.n k)
+        (fun k => (List.replicate c.n 0).set (k / w) (2 ^ (k % w))) (W c)), "-")
   | "set_bit", [a, i, v] =>
     if c.signed then none else do
     let a ← parseVal c a; let i ← i.toNat?; let v ← parseBool v
